@@ -164,12 +164,14 @@ type prepared struct {
 }
 
 // prepare parses and (base-)validates; skip != "" when the case is outside the property's domain.
-func (h *harness) prepare(c Case) (p *prepared, skip string) {
+func (h *harness) prepare(c Case) (p *prepared, skip string) { return h.prepareFor(c, h.schema) }
+
+func (h *harness) prepareFor(c Case, schema *graphql.Schema) (p *prepared, skip string) {
 	doc, perrs := parser.ParseDocument([]byte(c.Query))
 	if len(perrs) > 0 {
 		return nil, "parse-error: " + perrs[0].Message
 	}
-	if _, errs := graphql.ParseAndValidate(c.Query, h.schema, nil); len(errs) > 0 {
+	if _, errs := graphql.ParseAndValidate(c.Query, schema, nil); len(errs) > 0 {
 		return nil, "invalid-document: " + errs[0].Message
 	}
 	p = &prepared{doc: doc, varsOk: true, coerced: map[string]interface{}{}}
